@@ -49,6 +49,9 @@ func (c *Ctx) Prog(sub string) *core.Prog {
 		return nil
 	}
 	c.progs[sub] = p
+	progMu.Lock()
+	progOf[p.SSA] = p
+	progMu.Unlock()
 	name := "root"
 	if sub != "" {
 		name = sub
@@ -76,6 +79,9 @@ func (c *Ctx) Preload(subs ...string) {
 				c.errs[s] = err
 			} else {
 				c.progs[s] = p
+				progMu.Lock()
+				progOf[p.SSA] = p
+				progMu.Unlock()
 			}
 			c.mu.Unlock()
 		}(s)
@@ -96,6 +102,8 @@ func (c *Ctx) Preload(subs ...string) {
 		c.R.Count("ssa_functions_"+name, p.NumFuncs)
 	}
 }
+
+var progMu sync.Mutex
 
 // Check is one property's checker.
 type Check struct {
@@ -138,6 +146,13 @@ func RunCheck(repo, verif, id, tier string) (code int) {
 		}
 	}()
 	c.Preload(ch.Modules...)
+	if os.Getenv("LCV_GEN_ANCHORS") != "" {
+		for _, m := range ch.Modules {
+			if pr := c.progs[m]; pr != nil {
+				core.RecordNames(pr)
+			}
+		}
+	}
 	ch.Run(c)
 	if tier == "thorough" {
 		runThoroughExtras(c, ch)
